@@ -1,0 +1,36 @@
+//go:build verif
+
+// Assumed contracts (A-sql-1) for the generated database layer of the keyper: read queries are
+// functions of an abstract database state. Bodies are generated sqlc code over pgx and are not
+// verified (`trusted`). Comments only.
+package database
+
+//@ ufn dbHasKey(Int, Bytes) Bool
+//@ ufn dbKey(Int, Bytes) Bytes
+//@ ufn errWraps(Int, Int) Bool
+//@
+//@ func (*Queries).GetDecryptionKey
+//@   trusted
+//@   requires q != nil
+//@   ensures ret1 == nil ==> dbHasKey(arg.Eon, content(arg.EpochID)) && content(ret0.DecryptionKey) == dbKey(arg.Eon, content(arg.EpochID))
+//@   ensures (ret1 == sentinel("pgx.ErrNoRows")) ==> !dbHasKey(arg.Eon, content(arg.EpochID))
+//@   ensures !errWraps(ret1, sentinel("pgx.ErrNoRows"))
+//@
+//@ // A-db-1: the number of keypers of an eon is a function of the eon; rows of decryption_key_share carry a
+//@ // sender index inside that eon's keyper set (they are inserted only after checkKeyShares accepted the
+//@ // message, or for the keyper's own index).
+//@ ufn dkgSize(Int) Int
+//@ func (*Queries).GetDKGResultForKeyperConfigIndex
+//@   trusted
+//@   requires q != nil
+//@   ensures ret1 == nil ==> dkgSizeOfBytes(content(ret0.PureResult)) == dkgSize(keyperConfigIndex)
+//@   ensures !errWraps(ret1, sentinel("pgx.ErrNoRows"))
+//@ func (*Queries).SelectDecryptionKeyShares
+//@   trusted
+//@   requires q != nil
+//@   ensures ret1 == nil ==> (forall i :: 0 <= i && i < len(ret0) ==> (0 <= ret0[i].KeyperIndex && ret0[i].KeyperIndex < dkgSize(arg.Eon)))
+//@
+//@ func (*Queries).InsertDecryptionKeysMsg
+//@   requires q != nil && msg != nil && (forall i :: 0 <= i && i < len(msg.Keys) ==> msg.Keys[i] != nil)
+//@ func (*Queries).InsertDecryptionKeySharesMsg
+//@   requires q != nil && msg != nil && (forall i :: 0 <= i && i < len(msg.Shares) ==> msg.Shares[i] != nil)
